@@ -219,3 +219,45 @@ mutant("c19-invalid-peer-accepted", "C19", TUNNEL,
        '''            interface2 = node2.interfaces[
                 node2.params[peer1.get("nic", "internet_nic")]
             ]''')
+
+# ---- C11 -------------------------------------------------------------------------------------------
+CMD = "avocado_i2n/cmd_parser.py"
+mutant("c11-default-added-unconditionally", "C11", CMD,
+       '''    if use_tests_default:
+        default = tests_params.get("default_only", "all")''',
+       '''    if True:
+        default = tests_params.get("default_only", "all")''')
+mutant("c11-no-written-as-only", "C11", CMD,
+       '''            tests_str += "%s %s\\n" % (key, value)''',
+       '''            tests_str += "only %s\\n" % value''')
+mutant("c11-malformed-token-skipped", "C11", CMD,
+       '''        if re_param is None:
+            raise ValueError(''',
+       '''        if re_param is None:
+            continue
+            raise ValueError(''')
+mutant("c11-comma-not-translated", "C11", CMD,
+       '''            # NOTE: comma on the command line is space in a config file
+            value = value.replace(",", " ")
+            param_dict[key] = value''',
+       '''            # NOTE: comma on the command line is space in a config file
+            param_dict[key] = value''')
+mutant("c11-vm-restriction-overwritten-not-stacked", "C11", CMD,
+       '''                        vm_strs[vm_name] += vm_str''',
+       '''                        vm_strs[vm_name] = vm_str''')
+mutant("c11-unknown-vm-accepted", "C11", CMD,
+       '''                if vm_name not in available_vms:
+                    raise ValueError(''',
+       '''                if vm_name not in available_vms and False:
+                    raise ValueError(''')
+mutant("c11-primary-detection-misses-dotted", "C11", CMD,
+       '''            for variant in re.split(r",|\\.|\\.\\.", value):''',
+       '''            for variant in [value]:''')
+mutant("c11-nets-conflict-check-dropped", "C11", CMD,
+       '''            if nets_str != "":
+                raise ValueError(''',
+       '''            if nets_str != "" and False:
+                raise ValueError(''')
+mutant("c11-empty-vm-restriction-gets-default", "C11", CMD,
+       '''                        use_vms_default[vm_name] = False''',
+       '''                        use_vms_default[vm_name] = not value''')
